@@ -241,6 +241,56 @@ def ambiguous_facts(fn: ast.FunctionDef):
     return hits[0]
 
 
+def self_join_rule(tree):
+    """_handle_self_join: which references through a DataFrame are re-targeted to the right table.
+    Returns True when, besides `uuid in other_df.known_uuids - self.known_uuids`, a reference whose uuid is that of the very
+    DataFrame passed to join() (`== other_uuid`, given as other.join_on_uuid at the call site) is re-targeted too."""
+    fn = py2v.find_method(tree, "BaseDataFrame", "_handle_self_join")
+    join = py2v.find_method(tree, "BaseDataFrame", "join")
+    sets = [st for st in ast.walk(fn) if isinstance(st, ast.Assign) and _is_name(st.targets[0], "other_df_unique_uuids")]
+    if len(sets) != 1 or ast.unparse(sets[0].value) != "other_df.known_uuids - self.known_uuids":
+        raise Untranslatable("_handle_self_join: other_df_unique_uuids is not other_df.known_uuids - self.known_uuids")
+    tests = [n for n in ast.walk(fn) if isinstance(n, ast.If) and "join_on_uuid" in ast.unparse(n.test)]
+    if len(tests) != 1:
+        raise Untranslatable(f"_handle_self_join: {len(tests)} tests on join_on_uuid")
+    src = ast.unparse(tests[0].test)
+    old = "'join_on_uuid' in col_expr.meta and col_expr.meta['join_on_uuid'] in other_df_unique_uuids"
+    new = ("'join_on_uuid' in col_expr.meta and (col_expr.meta['join_on_uuid'] in other_df_unique_uuids or "
+           "col_expr.meta['join_on_uuid'] == other_uuid)")
+    body = "\n".join(ast.unparse(x) for x in tests[0].body)
+    if "col_expr.set('table', exp.to_identifier(other_df.latest_cte_name))" not in body:
+        raise Untranslatable("_handle_self_join: the reference is not re-targeted to other_df.latest_cte_name")
+    calls = [c for c in ast.walk(join) if isinstance(c, ast.Call) and dotted(c.func) == "self._handle_self_join"]
+    if len(calls) != 1:
+        raise Untranslatable("join(): _handle_self_join is not called exactly once")
+    args = [ast.unparse(a) for a in calls[0].args] + [f"{k.arg}={ast.unparse(k.value)}" for k in calls[0].keywords]
+    if src == old and args == ["other_df", "join_columns"]:
+        return False
+    params = [a.arg for a in fn.args.args]
+    if src == new and params[:4] == ["self", "other_df", "join_columns", "other_uuid"] and \
+            args in (["other_df", "join_columns", "other.join_on_uuid"], ["other_df", "join_columns", "other_uuid=other.join_on_uuid"]):
+        return True
+    raise Untranslatable("_handle_self_join: unknown re-targeting rule: " + src + " / call " + ", ".join(args))
+
+
+def rename_in_place(tree):
+    """_add_ctes_to_expression: are the right side's CTEs that follow a renamed duplicate rewritten IN PLACE
+    (cte.transform(replace_id_value, replaced_cte_names, copy=False)) -- then join() sees their new names through
+    other_df.latest_cte_name -- or on a copy (sqlglot's default), which leaves the stale name behind?"""
+    fn = py2v.find_method(tree, "BaseDataFrame", "_add_ctes_to_expression")
+    # (other .transform calls in the function work on cte.this -- the inline sources' aliases -- and are not this rewrite)
+    calls = [c for c in ast.walk(fn) if isinstance(c, ast.Call) and isinstance(c.func, ast.Attribute) and c.func.attr == "transform"
+             and ast.unparse(c.func.value) == "cte"]
+    if len(calls) != 1 or [ast.unparse(a) for a in calls[0].args] != ["replace_id_value", "replaced_cte_names"]:
+        raise Untranslatable("_add_ctes_to_expression: cte.transform(replace_id_value, replaced_cte_names ...) not found exactly once")
+    kws = {k.arg: k.value for k in calls[0].keywords}
+    if not kws:
+        return False
+    if list(kws) == ["copy"] and isinstance(kws["copy"], ast.Constant) and isinstance(kws["copy"].value, bool):
+        return not kws["copy"].value
+    raise Untranslatable("_add_ctes_to_expression: unexpected keywords of cte.transform: " + ", ".join(map(str, kws)))
+
+
 def generate(repo: str):
     path = os.path.join(repo, "sqlframe/base/dataframe.py")
     tree, src = py2v.load(path)
@@ -249,6 +299,8 @@ def generate(repo: str):
     amb = py2v.find_method(tree, "BaseDataFrame", "_resolve_ambiguous_columns")
     jf = join_facts(join)
     right = ambiguous_facts(amb)
+    exact = self_join_rule(tree)
+    in_place = rename_in_place(tree)
 
     def ch(c):
         if not (32 <= ord(c) < 127) or c == '"':
@@ -277,6 +329,10 @@ def generate(repo: str):
         {"name": "first join side == (right-to-left resolution)", "from": "dataframe.py: _resolve_ambiguous_columns", "value": right},
         {"name": "how normalised like Spark (lower-case, no underscores) before anything else", "value": jf["norm"]},
         {"name": "without a condition only how == <literal> becomes the product, other kinds are joined ON TRUE", "value": bool(jf.get("none_eq"))},
+        {"name": "_handle_self_join also re-targets references taken from the very DataFrame being joined", "value": exact,
+         "used_by": "harness: the `uo` bit of a reference through a DataFrame (observed lineage)"},
+        {"name": "renamed duplicate CTEs are rewritten in place (no stale other_df.latest_cte_name)", "value": in_place,
+         "used_by": "harness: the `stale` observation of a join step"},
         {"name": "join() source", "hash": py2v.src_hash(join, src)},
         {"name": "_resolve_ambiguous_columns source", "hash": py2v.src_hash(amb, src)},
     ]
